@@ -118,6 +118,53 @@ def mode_decision(ctx, repo, rule):
     ctx.floor(rule, "device on/off valuations", n, 12)
 
 
+def inventory_reads_are_pure(ctx, repo, rule):
+    """the inventory a facade presents is what the scan built, however often it is asked for: on a model facade holding
+    two pumps, a blower, a light, two sensors and a binary sensor every read-only member that returns devices is read
+    three times (a front end polls them; the facade reads `all_config_change_devices` itself on every device change):
+    the pump / blower / light / sensor lists the scan left are unchanged and every read gives the same devices."""
+    n = 0
+    for fcls in ("GeckoAsyncFacade", "GeckoFacade"):
+        c = repo.cls(fcls)
+        interp = Interp(repo, max_depth=8)
+        mk = lambda nm: Obj(None, {"key": nm, "name": nm, "is_on": False, "unique_id": f"id-{nm}"}, name=f"device<{nm}>")  # noqa: E731
+        attrs = init_defaults(repo, fcls)
+        stores = {"_pumps": [mk("P1"), mk("P2")], "_blowers": [mk("BL")], "_lights": [mk("LI")], "_sensors": [mk("S1"), mk("S2")], "_binary_sensors": [mk("B1")]}
+        attrs.update({k: list(v) for k, v in stores.items()})
+        for k_ in ("_water_heater", "_water_care", "_keypad", "_ecomode", "_eco_mode", "_error_sensor", "_reminders_manager", "_reminders"):
+            if k_ in attrs and attrs[k_] is None:
+                attrs[k_] = mk(k_.strip("_").upper())
+        me = Obj(c, attrs)
+        members = [nm for nm, f in repo.all_methods(c).items() if f.is_property]
+        bad = []
+        first = {}
+        for rnd in range(3):
+            for nm in sorted(members):
+                try:
+                    interp.steps = 0
+                    v = interp.getattr(me, nm)
+                except (PyRaise, Undecided):
+                    continue
+                if not (isinstance(v, list) and all(isinstance(x, Obj) for x in v)):
+                    continue
+                n += 1
+                ids = [id(x) for x in v]
+                if nm in first and first[nm] != ids:
+                    bad.append((nm, f"read {rnd + 1} gives {[x.attrs.get('key') for x in v]}, the first read gave {len(first[nm])} devices"))
+                first.setdefault(nm, ids)
+            for k, v0 in stores.items():
+                now = me.attrs.get(k)
+                if not (isinstance(now, list) and [id(x) for x in now] == [id(x) for x in v0]):
+                    bad.append((k, f"after round {rnd + 1} of reads holds {[x.attrs.get('key') for x in now] if isinstance(now, list) else now!r}, the scan left {[x.attrs.get('key') for x in v0]}"))
+            if bad:
+                break
+        ctx.ob(rule, f"{fcls}::device-lists-unchanged-by-reads", not bad,
+               f"{fcls}: reading the members that return devices changes the inventory: " + "; ".join(f"{a}: {b}" for a, b in bad[:3]) +
+               " - a member that extends or re-orders the list it returns files devices under the wrong kind and lists them more than once", c.loc if hasattr(c, "loc") else None,
+               sample={"rule": rule, "facade": fcls, "device-list reads": n})
+    ctx.floor(rule, "device-list reads on the model facades", n, 20)
+
+
 def periodic_update_keeps_the_mode(ctx, repo, rule):
     """the facade's periodic update on a model facade (devices with fixed on/off states, a spa that answers pings or does
     not, water care and reminders stand-ins): one pass of the loop is interpreted (the second sleep ends it).  Whatever
